@@ -478,3 +478,54 @@ func init() {
 	})
 }
 
+
+// c10-examples: the fixed instances used as non-vacuity Examples in coq/proofs/TransformExamples.v
+// (same bytes) and kept as corpus/C10/examples.case.  Not used by any check directly.
+func init() {
+	register("c10-examples", func(c *Ctx) {
+		dig := bytes.Repeat([]byte{0x11}, 32)
+		m1, _ := mh.Encode(dig, mh.SHA2_256)
+		c1 := cid.NewCidV1(cid.Raw, m1)
+		dig2 := bytes.Repeat([]byte{0x22}, 32)
+		m2, _ := mh.Encode(dig2, mh.SHA2_256)
+		c2 := cid.NewCidV1(cid.DagCBOR, m2) // same length as c1
+		mi, _ := mh.Encode([]byte("ab"), mh.IDENTITY)
+		ci := cid.NewCidV1(cid.Raw, mi)
+		blks := []Blk{{c1, []byte("hi")}, {ci, []byte("ab")}, {c1, []byte("hi")}}
+		roots := []cid.Cid{c1}
+		payload := refPayload(roots, blks)
+		hdrLen := len(refPayload(roots, nil))
+		o := defaultXOpts
+		o.maxSeek = memMaxSeek
+		valid := VL{VT("valid"), cidsVal(roots), blksVal(blks)}
+		// wrap
+		in := VL{o.val(), VN(1), VB(payload), VL{}, valid}
+		obs := runWrapImpl(c, o, 1, payload, nil)
+		c.Emit("xwrap", in, obs, true)
+		index := []byte(obs.(VL)[2].(VL)[1].(VB))[51+len(payload):]
+		// container with data padding 3 and index padding 2
+		r := NewRNG(7)
+		ct := buildContainer(r, payload, index, 3, 2, true, 0x80)
+		win := VL{VT("window"), VN(ct.doff), VN(ct.dsize)}
+		larger := VL{VT("file"), VB(bytes.Repeat([]byte{0xee}, len(payload)+9))}
+		for _, d := range []Val{VL{VT("same")}, larger, VL{VT("absent")}} {
+			in := VL{o.val(), VB(ct.file), d, VL{}, win, VN(7)}
+			c.Emit("xextract", in, runExtractImpl(c, o, ct.file, d), true)
+		}
+		// the same container cut inside the payload: partial overwrite, io.EOF
+		cut := ct.file[:int(ct.doff)+20]
+		c.Emit("xextract", VL{o.val(), VB(cut), VL{VT("same")}, VL{}, VL{VT("none")}, VN(7)}, runExtractImpl(c, o, cut, VL{VT("same")}), true)
+		// round trip
+		for _, d := range []Val{VL{VT("same")}, larger} {
+			in := VL{o.val(), VB(payload), d, VL{}, VN(5)}
+			c.Emit("xrtrip", in, runRtripImpl(c, o, payload, d), true)
+		}
+		// replace roots: same size (accepted), different size (refused), on the CARv1 and the CARv2
+		for _, nr := range [][]cid.Cid{{c2}, {c1, c2}, {}} {
+			in := VL{o.val(), VB(payload), rootsVal(nr), VL{}, VL{VT("hdr"), VN(0), VN(uint64(hdrLen))}}
+			c.Emit("xreplace", in, runReplaceImpl(c, o, payload, nr), true)
+			in2 := VL{o.val(), VB(ct.file), rootsVal(nr), VL{}, VL{VT("hdr"), VN(ct.doff), VN(uint64(hdrLen))}}
+			c.Emit("xreplace", in2, runReplaceImpl(c, o, ct.file, nr), true)
+		}
+	})
+}
